@@ -100,6 +100,16 @@ class Replayer:
         c = self.c
         rtype = ""
         raised = ""
+        self.nops = getattr(self, "nops", 0) + 1
+        form = self.nops % 4
+
+        def ix(i):
+            """an index in one of the forms a plain list accepts: int, an object with __index__, numpy.int64"""
+            if form == 1:
+                return _Idx(i)
+            if form == 2 and _np is not None:
+                return _np.int64(i)
+            return i
         try:
             if name == "append":
                 c[a[0]].append(self.new(a[1]))
@@ -107,9 +117,9 @@ class Replayer:
                 r = self.new(a[1])
                 c[a[0]].add_state(r.state, r.value, r.spin)
             elif name == "insert":
-                c[a[0]].insert(a[1], self.new(a[2]))
+                c[a[0]].insert(ix(a[1]), self.new(a[2]))
             elif name == "pop":
-                c[a[0]].pop(a[1])
+                c[a[0]].pop(ix(a[1]))
             elif name == "remove":
                 c[a[0]].remove(list.__getitem__(c[a[0]], a[1]))
             elif name == "clear":
@@ -139,13 +149,15 @@ class Replayer:
                 c[a[0]] = x
                 rtype = type(x).__name__
             elif name == "setitem":
-                c[a[0]][a[1]] = self.new(a[2])
+                c[a[0]][ix(a[1])] = self.new(a[2])
             elif name == "delitem":
-                del c[a[0]][a[1]]
+                del c[a[0]][ix(a[1])]
             elif name == "setslice":
-                c[a[0]][a[1]:a[2]] = list(c[a[3]])
+                src = list(c[a[3]])                 # any iterable is a legal right-hand side, one-shot ones included
+                rhs = [src, tuple(src), (r for r in src), iter(src)][form]
+                c[a[0]][ix(a[1]):ix(a[2])] = rhs
             elif name == "delslice":
-                del c[a[0]][a[1]:a[2]]
+                del c[a[0]][ix(a[1]):ix(a[2])]
             else:
                 if name == "copy":
                     res, d = c[a[0]].copy(), a[1]
@@ -155,7 +167,7 @@ class Replayer:
                 elif name == "mul":
                     res, d = c[a[0]] * a[1], a[2]
                 elif name == "getslice":
-                    res, d = c[a[0]][a[1]:a[2]], a[3]
+                    res, d = c[a[0]][ix(a[1]):ix(a[2])], a[3]
                 elif name == "everyother":
                     res, d = c[a[0]][::2], a[1]
                 elif name == "reversed":
@@ -188,6 +200,21 @@ class Replayer:
             raised = type(e).__name__
         items, best = self.snapshot()
         return {"op": list(op), "raised": raised, "rtype": rtype, "items": items, "best": best}
+
+
+class _Idx:
+    """an integer-like index (anything with __index__ is accepted by list)"""
+    def __init__(self, i):
+        self.i = i
+
+    def __index__(self):
+        return self.i
+
+
+try:
+    import numpy as _np
+except Exception:                                   # noqa
+    _np = None
 
 
 class _Plain(list):
